@@ -19,7 +19,9 @@ RULE = ('Model-based stateful testing of Client / AsyncClient on the real '
         'server DISCONNECT per namespace, emit/send/call on connected and '
         'unconnected namespaces, disconnect(), transport loss at any point '
         '(incl. between a binary header and its attachment and with '
-        'callbacks outstanding), server CLOSE, and new connections; function '
+        'callbacks outstanding), server CLOSE, and new connections; an '
+        'application connect handler that raises or (asyncio) outlasts '
+        'wait_timeout while the server accepts every namespace; function '
         'and class-based handlers. Oracle: model of what the scripted server '
         'has accepted and not ended (namespaces, sids, connected flag, '
         'CONNECT frames with auth, connect()/ConnectionError outcome, '
@@ -71,7 +73,11 @@ def strategy(tier):
         'auth': auth, 'auth_callable': st.booleans(), 'wait': st.booleans(),
         'answers': st.lists(answer, min_size=3, max_size=3),
         'order': st.permutations([0, 1, 2]),
-        'chunks': st.lists(st.integers(1, 3), min_size=1, max_size=3)})
+        'chunks': st.lists(st.integers(1, 3), min_size=1, max_size=3),
+        # the application's connect handler of one namespace raises, or
+        # (asyncio) runs longer than wait_timeout
+        'chf': st.one_of(st.none(), st.none(), st.fixed_dictionaries({
+            'ns': nsi, 'mode': st.sampled_from(['raise', 'stall'])}))})
     op = st.one_of(
         connect, connect,
         st.fixed_dictionaries({'op': st.just('sdisc'), 'ns': nsi}),
@@ -109,10 +115,29 @@ def _run(case, h):
     aio = case['aio']
     log = []
 
+    armed = {}      # namespace -> fault mode of its next connect handler
+    chf_on = [False]
+
     def rec(kind, ns):
-        def f(*a):
-            log.append((kind, ns, a))
-        return f
+        if kind != 'connect':
+            def f(*a):
+                log.append((kind, ns, a))
+            return f
+        if aio:
+            async def fc(*a):
+                log.append((kind, ns, a))
+                mode = armed.pop(ns, None)
+                if mode == 'stall':
+                    import asyncio
+                    await asyncio.sleep(1.3)
+                elif mode:
+                    raise RuntimeError('application connect handler fault')
+        else:
+            def fc(*a):
+                log.append((kind, ns, a))
+                if armed.pop(ns, None):
+                    raise RuntimeError('application connect handler fault')
+        return fc
 
     if case['style'] == 'fn':
         for ns in NSS:
@@ -281,6 +306,10 @@ def _run(case, h):
                 first[0] = False
                 check_connect_frames()
             n = chunks.pop(0) if chunks else 1
+            if chf_on[0]:
+                # a faulting handler does not wake connect(): the remaining
+                # answers arrive within the same wait, before it times out
+                n = len(answers)
             for _ in range(n):
                 if answers:
                     ns, ans = answers.pop(0)
@@ -304,6 +333,14 @@ def _run(case, h):
         h.on_engine_connected = on_open
         err = None
         nlog0 = len(log)
+        armed.clear()
+        chf_on[0] = False
+        chf = op.get('chf')
+        if chf and NSS[chf['ns']] in req and \
+                op['answers'][chf['ns']]['a'] == 'ok':
+            armed[NSS[chf['ns']]] = chf['mode']
+            chf_on[0] = True
+            labels['connect_handler_fault'] = True
         if op['wait']:
             if aio:
                 task = h.loop.spawn(sio.connect(
@@ -518,6 +555,9 @@ def _run(case, h):
             probe(k)
     except _Stop:
         pass
+    # the injected handler fault is the application's own
+    h.bg_errors[:] = [e for e in h.bg_errors
+                      if 'application connect handler fault' not in str(e)]
     if h.bg_errors:
         raise Violation('message-handler-raised', repr(h.bg_errors[0]))
     return labels
